@@ -44,6 +44,13 @@ func verifOnCopy(a *archetype, src, dst unsafe.Pointer, size uint32) {
 	verifMemHook(VerifMemOp{Kind: kind, Dst: dst, Src: src, Size: size})
 }
 
+func verifOnTyped(kind string, dst, src unsafe.Pointer, size uint32) {
+	if verifMemHook == nil {
+		return
+	}
+	verifMemHook(VerifMemOp{Kind: kind, Dst: dst, Src: src, Size: size})
+}
+
 // VerifColumn describes the storage of one component column of one table.
 type VerifColumn struct {
 	ID       uint8
